@@ -147,7 +147,7 @@ pub fn run(tier: Tier, seed: u64) -> i32 {
     let mut rep = Report::new("C15", tier, seed);
     rep.exhaustive = true;
     rep.level = "fault_enumeration";
-    rep.rule = "enumeration: for every fund-moving instruction (swap x2, two-hop x2, increase x3, decrease x2, reposition, collect fees x2, collect reward x2, collect protocol fees x2, set-emissions x2, initialize reward x2, update-fees, close/reset/lock/transfer/bundle family, pool-level setters) a golden invocation that must succeed, then for every account slot that is bound by the property (pool, vaults, tick arrays, oracle, position, mints, reward vault, token/memo/system/ATA programs, config, lock config, bundle) every other account of the same kind found in the bank is substituted (vault <- every other token account of the same mint incl. other pools' vaults, the pool's own reward vaults and user accounts; tick array / oracle / position <- those of other pools; mint <- other mints; program <- other executables ...): the instruction must fail. User-owned token account slots are substituted with accounts of another mint (must fail). Pair substitutions: position + its token account of a position in another pool (same owner); second leg of a two-hop replaced by the first pool. v1 instructions (increase, decrease, swap, collect fees, collect protocol fees) on a pool over two extension-less Token-2022 mints with either token program in the slot must fail. distinct = (instruction, slot, kind of substitute)".into();
+    rep.rule = "enumeration: for every fund-moving instruction (swap x2, two-hop x2, increase x3, decrease x2, reposition, collect fees x2, collect reward x2, collect protocol fees x2, set-emissions x2, initialize reward x2, update-fees, close/reset/lock/transfer/bundle family, pool-level setters) a golden invocation that must succeed, then for every account slot that is bound by the property (pool, vaults, tick arrays, oracle, position, mints, reward vault, token/memo/system/ATA programs, config, lock config, bundle) every other account of the same kind found in the bank is substituted (vault <- every other token account of the same mint incl. other pools' vaults, the pool's own reward vaults and user accounts; tick array / oracle / position <- those of other pools; mint <- other mints; program <- other executables ...): the instruction must fail. User-owned token account slots are substituted with accounts of another mint (must fail). Pair substitutions: position + its token account of a position in another pool (same owner), once holding liquidity and once empty (early-return paths for zero liquidity must not skip the pool check); second leg of a two-hop replaced by the first pool. v1 instructions (increase, decrease, swap, collect fees, collect protocol fees) on a pool over two extension-less Token-2022 mints with either token program in the slot must fail. distinct = (instruction, slot, kind of substitute)".into();
     rep.assumptions = vec!["the bound/free classification of slots is written in the harness from the property statement".into(), "substitutes are the accounts present in the catalogue world (6 pools over shared and disjoint mints, 2 configs, reward vaults holding pool mints)".into()];
     let mut acc = Acc::default();
     let flavours = tier.pick(1, 3);
@@ -263,8 +263,9 @@ pub fn run(tier: Tier, seed: u64) -> i32 {
             // pair substitution: a position of another pool with its own token account (same owner)
             if let (Some(pi), Some(_)) = (g.position, named_pool) {
                 let here = bs.w.positions[pi].pool;
-                for alt in [bs.pos_full, bs.pos_a3, bs.pos_a2, bs.pos_b, bs.pos_t] {
+                for alt in [bs.pos_full, bs.pos_a3, bs.pos_a2, bs.pos_b, bs.pos_t].into_iter().chain(bs.empty_foreign.iter().copied()) {
                     let ap = &bs.w.positions[alt];
+                    let empty = bs.empty_foreign.contains(&alt);
                     if ap.pool == here || g.ix.slot("position").is_none() || g.ix.slot("position_token_account").is_none() {
                         continue;
                     }
@@ -272,7 +273,7 @@ pub fn run(tier: Tier, seed: u64) -> i32 {
                     if i.slot("position_mint").is_some() {
                         i = i.with_key("position_mint", ap.mint);
                     }
-                    subs.push(("position+position_token_account".into(), "position_of_another_pool_with_its_token".into(), i));
+                    subs.push(("position+position_token_account".into(), if empty { "empty_position_of_another_pool_with_its_token" } else { "position_of_another_pool_with_its_token" }.into(), i));
                 }
             }
             // two-hop: second leg replaced by the first pool
@@ -349,6 +350,7 @@ pub fn run(tier: Tier, seed: u64) -> i32 {
     rep.floor("rejected:tick_array_of_another_pool", 200);
     rep.floor("rejected:another_pool", 100);
     rep.floor("rejected:position_of_another_pool_with_its_token", 30);
+    rep.floor("rejected:empty_position_of_another_pool_with_its_token", 30);
     rep.floor("rejected:another_program", 100);
     rep.floor("rejected:oracle_of_another_pool", 5);
     rep.finish()
